@@ -1,0 +1,113 @@
+//go:build verif
+
+package memidm
+
+// Contracts for the deductive verifier in /verif (govc).  Comments only; compiled only with
+// the build tag "verif"; adds no code.
+
+//@ type MemIdm
+//@   inv[C15] self.groupsByName != nil && self.groupsById != nil && self.usersByName != nil && self.usersById != nil
+//@   inv[C15] forall n string :: dom(self.groupsByName, n) ==> self.groupsByName[n] != nil && self.groupsByName[n].name == n && dom(self.groupsById, self.groupsByName[n].gid) && self.groupsById[self.groupsByName[n].gid] == self.groupsByName[n]
+//@   inv[C15] forall i int :: dom(self.groupsById, i) ==> self.groupsById[i] != nil && self.groupsById[i].gid == i && i <= self.maxGid && dom(self.groupsByName, self.groupsById[i].name) && self.groupsByName[self.groupsById[i].name] == self.groupsById[i]
+//@   inv[C15] forall n string :: dom(self.usersByName, n) ==> self.usersByName[n] != nil && self.usersByName[n].name == n && dom(self.usersById, self.usersByName[n].uid) && self.usersById[self.usersByName[n].uid] == self.usersByName[n]
+//@   inv[C15] forall i int :: dom(self.usersById, i) ==> self.usersById[i] != nil && self.usersById[i].uid == i && i <= self.maxUid && dom(self.usersByName, self.usersById[i].name) && self.usersByName[self.usersById[i].name] == self.usersById[i]
+//@   inv[C15] self.maxGid >= minGid && self.maxUid >= minUid
+//@   guarded_by grpMu: groupsByName groupsById maxGid
+//@   guarded_by usrMu: usersByName usersById maxUid
+//@   immutable adminGroup adminUser
+
+//@ type MemUser
+//@   immutable name uid gid
+//@ type MemGroup
+//@   immutable name gid
+
+//@ func (*MemIdm).AddGroup
+//@   requires idm.maxGid < 9223372036854775807
+//@   ensures[C15] old(dom(idm.groupsByName, name)) ==> r0 == nil && r1 == avfs.AlreadyExistsGroupError(name)
+//@   ensures[C15] old(dom(idm.groupsByName, name)) ==> idm.maxGid == old(idm.maxGid) && (forall n string :: dom(idm.groupsByName, n) == old(dom(idm.groupsByName, n)) && idm.groupsByName[n] == old(idm.groupsByName[n])) && (forall i int :: dom(idm.groupsById, i) == old(dom(idm.groupsById, i)) && idm.groupsById[i] == old(idm.groupsById[i]))
+//@   ensures[C15] !old(dom(idm.groupsByName, name)) ==> r1 == nil && r0 is *MemGroup && fresh(r0.(*MemGroup)) && r0.(*MemGroup).name == name && r0.(*MemGroup).gid == old(idm.maxGid) + 1 && idm.maxGid == old(idm.maxGid) + 1
+//@   ensures[C15] !old(dom(idm.groupsByName, name)) ==> dom(idm.groupsByName, name) && idm.groupsByName[name] == r0.(*MemGroup) && (forall n string :: n != name ==> dom(idm.groupsByName, n) == old(dom(idm.groupsByName, n)) && idm.groupsByName[n] == old(idm.groupsByName[n]))
+//@   ensures[C15] !old(dom(idm.groupsByName, name)) ==> dom(idm.groupsById, old(idm.maxGid) + 1) && idm.groupsById[old(idm.maxGid) + 1] == r0.(*MemGroup) && (forall i int :: i != old(idm.maxGid) + 1 ==> dom(idm.groupsById, i) == old(dom(idm.groupsById, i)) && idm.groupsById[i] == old(idm.groupsById[i]))
+//@   ensures[C15] !old(dom(idm.groupsByName, name)) ==> !old(dom(idm.groupsById, old(idm.maxGid) + 1))
+//@   modifies idm.maxGid, idm.groupsByName[*], idm.groupsById[*]
+
+//@ func (*MemIdm).DelGroup
+//@   ensures[C15] !old(dom(idm.groupsByName, name)) ==> r0 == avfs.UnknownGroupError(name)
+//@   ensures[C15] !old(dom(idm.groupsByName, name)) ==> (forall n string :: dom(idm.groupsByName, n) == old(dom(idm.groupsByName, n)) && idm.groupsByName[n] == old(idm.groupsByName[n])) && (forall i int :: dom(idm.groupsById, i) == old(dom(idm.groupsById, i)) && idm.groupsById[i] == old(idm.groupsById[i]))
+//@   ensures[C15] old(dom(idm.groupsByName, name)) ==> r0 == nil && !dom(idm.groupsByName, name) && !dom(idm.groupsById, old(idm.groupsByName[name].gid))
+//@   ensures[C15] old(dom(idm.groupsByName, name)) ==> (forall n string :: n != name ==> dom(idm.groupsByName, n) == old(dom(idm.groupsByName, n)) && idm.groupsByName[n] == old(idm.groupsByName[n]))
+//@   ensures[C15] old(dom(idm.groupsByName, name)) ==> (forall i int :: i != old(idm.groupsByName[name].gid) ==> dom(idm.groupsById, i) == old(dom(idm.groupsById, i)) && idm.groupsById[i] == old(idm.groupsById[i]))
+//@   ensures[C15] idm.maxGid == old(idm.maxGid)
+//@   modifies idm.groupsByName[*], idm.groupsById[*]
+
+//@ func (*MemIdm).LookupGroup
+//@   ensures[C15] dom(idm.groupsByName, name) ==> r1 == nil && r0 is *MemGroup && r0.(*MemGroup) == idm.groupsByName[name]
+//@   ensures[C15] !dom(idm.groupsByName, name) ==> r0 == nil && r1 == avfs.UnknownGroupError(name)
+//@   modifies nothing
+
+//@ func (*MemIdm).LookupGroupId
+//@   ensures[C15] dom(idm.groupsById, gid) ==> r1 == nil && r0 is *MemGroup && r0.(*MemGroup) == idm.groupsById[gid]
+//@   ensures[C15] !dom(idm.groupsById, gid) ==> r0 == nil && r1 == avfs.UnknownGroupIdError(gid)
+//@   modifies nothing
+
+//@ func (*MemIdm).LookupUser
+//@   ensures[C15] dom(idm.usersByName, name) ==> r1 == nil && r0 is *MemUser && r0.(*MemUser) == idm.usersByName[name]
+//@   ensures[C15] !dom(idm.usersByName, name) ==> r0 == nil && r1 == avfs.UnknownUserError(name)
+//@   modifies nothing
+
+//@ func (*MemIdm).LookupUserId
+//@   ensures[C15] dom(idm.usersById, uid) ==> r1 == nil && r0 is *MemUser && r0.(*MemUser) == idm.usersById[uid]
+//@   ensures[C15] !dom(idm.usersById, uid) ==> r0 == nil && r1 == avfs.UnknownUserIdError(uid)
+//@   modifies nothing
+
+//@ func (*MemIdm).AddUser
+//@   requires idm.maxUid < 9223372036854775807
+//@   ensures[C15] !dom(idm.groupsByName, groupName) ==> r0 == nil && r1 == avfs.UnknownGroupError(groupName)
+//@   ensures[C15] dom(idm.groupsByName, groupName) && old(dom(idm.usersByName, name)) ==> r0 == nil && r1 == avfs.AlreadyExistsUserError(name)
+//@   ensures[C15] r1 != nil ==> idm.maxUid == old(idm.maxUid) && (forall n string :: dom(idm.usersByName, n) == old(dom(idm.usersByName, n)) && idm.usersByName[n] == old(idm.usersByName[n])) && (forall i int :: dom(idm.usersById, i) == old(dom(idm.usersById, i)) && idm.usersById[i] == old(idm.usersById[i]))
+//@   ensures[C15] dom(idm.groupsByName, groupName) && !old(dom(idm.usersByName, name)) ==> r1 == nil && r0 is *MemUser && fresh(r0.(*MemUser)) && r0.(*MemUser).name == name && r0.(*MemUser).uid == old(idm.maxUid) + 1 && idm.maxUid == old(idm.maxUid) + 1 && r0.(*MemUser).gid == idm.groupsByName[groupName].gid
+//@   ensures[C15] r1 == nil ==> dom(idm.usersByName, name) && idm.usersByName[name] == r0.(*MemUser) && (forall n string :: n != name ==> dom(idm.usersByName, n) == old(dom(idm.usersByName, n)) && idm.usersByName[n] == old(idm.usersByName[n]))
+//@   ensures[C15] r1 == nil ==> dom(idm.usersById, old(idm.maxUid) + 1) && idm.usersById[old(idm.maxUid) + 1] == r0.(*MemUser) && (forall i int :: i != old(idm.maxUid) + 1 ==> dom(idm.usersById, i) == old(dom(idm.usersById, i)) && idm.usersById[i] == old(idm.usersById[i]))
+//@   modifies idm.maxUid, idm.usersByName[*], idm.usersById[*]
+
+//@ func (*MemIdm).DelUser
+//@   ensures[C15] !old(dom(idm.usersByName, name)) ==> r0 == avfs.UnknownUserError(name)
+//@   ensures[C15] !old(dom(idm.usersByName, name)) ==> (forall n string :: dom(idm.usersByName, n) == old(dom(idm.usersByName, n)) && idm.usersByName[n] == old(idm.usersByName[n])) && (forall i int :: dom(idm.usersById, i) == old(dom(idm.usersById, i)) && idm.usersById[i] == old(idm.usersById[i]))
+//@   ensures[C15] old(dom(idm.usersByName, name)) ==> r0 == nil && !dom(idm.usersByName, name) && !dom(idm.usersById, old(idm.usersByName[name].uid))
+//@   ensures[C15] old(dom(idm.usersByName, name)) ==> (forall n string :: n != name ==> dom(idm.usersByName, n) == old(dom(idm.usersByName, n)) && idm.usersByName[n] == old(idm.usersByName[n]))
+//@   ensures[C15] old(dom(idm.usersByName, name)) ==> (forall i int :: i != old(idm.usersByName[name].uid) ==> dom(idm.usersById, i) == old(dom(idm.usersById, i)) && idm.usersById[i] == old(idm.usersById[i]))
+//@   ensures[C15] idm.maxUid == old(idm.maxUid)
+//@   modifies idm.usersByName[*], idm.usersById[*]
+
+//@ func (*MemUser).IsAdmin
+//@   ensures[C15,C03] r0 == (u.uid == 0)
+//@   modifies nothing
+//@ func (*MemUser).Uid
+//@   ensures[C15] r0 == u.uid
+//@   modifies nothing
+//@ func (*MemUser).Gid
+//@   ensures[C15] r0 == u.gid
+//@   modifies nothing
+//@ func (*MemUser).Name
+//@   ensures[C15] r0 == u.name
+//@   modifies nothing
+//@ func (*MemGroup).Gid
+//@   ensures[C15] r0 == g.gid
+//@   modifies nothing
+//@ func (*MemGroup).Name
+//@   ensures[C15] r0 == g.name
+//@   modifies nothing
+
+//@ func NewWithOptions
+//@   ensures[C15] fresh(r0) && r0.maxGid == minGid && r0.maxUid == minUid
+//@   ensures[C15] dom(r0.groupsById, 0) && r0.groupsById[0] == r0.adminGroup && r0.adminGroup != nil && r0.adminGroup.gid == 0 && dom(r0.groupsByName, r0.adminGroup.name)
+//@   ensures[C15] dom(r0.usersById, 0) && r0.usersById[0] == r0.adminUser && r0.adminUser != nil && r0.adminUser.uid == 0 && r0.adminUser.gid == 0 && dom(r0.usersByName, r0.adminUser.name)
+//@   ensures[C15] forall i int :: dom(r0.usersById, i) ==> i == 0
+//@   ensures[C15] forall i int :: dom(r0.groupsById, i) ==> i == 0
+
+//@ func (*MemIdm).AdminGroup
+//@   ensures[C15] r0 is *MemGroup && r0.(*MemGroup) == idm.adminGroup
+//@   modifies nothing
+//@ func (*MemIdm).AdminUser
+//@   ensures[C15] r0 is *MemUser && r0.(*MemUser) == idm.adminUser
+//@   modifies nothing
